@@ -168,7 +168,7 @@ theorem vZip_WF (s : VSpec) (body : SExpr) (out : Option String) (x y r : DS) (w
 theorem pairVals_congr (s : VSpec) (x x' y y' : DS) (hx : x.meas = x'.meas) (hy : y.meas = y'.meas) :
     pairVals s x y = pairVals s x' y' := by
   funext l r
-  unfold pairVals eitherViral
+  unfold pairVals pairVal eitherViral
   rw [hx, hy]
 
 theorem vZipRow_congr (s : VSpec) (x x' y y' : DS) (b : Bool) (ms : List String) (body : SExpr) (out : Option String)
@@ -253,5 +253,197 @@ theorem vAggr_perm (s : VSpec) (hs : ∀ p ∈ s, OrderFree p.2) (spec : AggSpec
     refine Rel2.bind (P := Perm) (mapRows_perm _ hb.2.2) ?_
     intro rows rows' hrr
     exact Rel2.pure ⟨hb.1, by rw [hb.2.1, viralOf_congr s x y h.2.1], hrr⟩
+
+/-! ### what the viral value of a result datapoint is (specification lemmas) -/
+
+theorem map_ok {α β : Type} (a : R α) (g : α → β) (b : β) : a.map g = .ok b ↔ ∃ v, a = .ok v ∧ b = g v := by
+  cases a with
+  | error e => simp [Except.map]
+  | ok v =>
+    simp only [Except.map, Except.ok.injEq]
+    constructor
+    · intro h; exact ⟨v, rfl, h.symm⟩
+    · rintro ⟨w, hw, rfl⟩; rw [hw]
+
+/-- the names of the pairs produced by a named `mapM`. -/
+theorem mapM_named_keys {α : Type} (f : α → R Value) (nm : α → String) :
+    ∀ (vs : List α) (out : List (String × Value)),
+      vs.mapM (fun p => (f p).map (fun v => (nm p, v))) = .ok out → out.map (·.1) = vs.map nm := by
+  intro vs
+  induction vs with
+  | nil => intro out h; simp [List.mapM_nil, pure, Except.pure] at h; subst h; rfl
+  | cons a l ih =>
+    intro out h
+    obtain ⟨b, bs, h1, h2, rfl⟩ := (mapM_ok_cons _ a l out).1 h
+    obtain ⟨v, _, rfl⟩ := (map_ok _ _ _).1 h1
+    simp only [List.map_cons, ih bs h2]
+
+/-- with distinct names, the pair named after `p` holds the value computed for `p`. -/
+theorem mapM_named_lookup {α : Type} (f : α → R Value) (nm : α → String) :
+    ∀ (vs : List α) (out : List (String × Value)),
+      vs.mapM (fun p => (f p).map (fun v => (nm p, v))) = .ok out → (vs.map nm).Nodup →
+      ∀ p ∈ vs, ∃ v, f p = .ok v ∧ out.lookup (nm p) = some v := by
+  intro vs
+  induction vs with
+  | nil => intro out _ _ p hp; cases hp
+  | cons a l ih =>
+    intro out h hn p hp
+    obtain ⟨b, bs, h1, h2, rfl⟩ := (mapM_ok_cons _ a l out).1 h
+    obtain ⟨v, hv, rfl⟩ := (map_ok _ _ _).1 h1
+    simp only [List.map_cons, List.nodup_cons] at hn
+    rcases List.mem_cons.1 hp with rfl | hp'
+    · exact ⟨v, hv, by simp⟩
+    · obtain ⟨w, hw, hl⟩ := ih bs h2 hn.2 p hp'
+      refine ⟨w, hw, ?_⟩
+      have hne : nm p ≠ nm a := fun e => hn.1 (e ▸ List.mem_map.2 ⟨p, hp', rfl⟩)
+      have : (nm p == nm a) = false := by simpa using hne
+      simp only [List.lookup_cons, this]
+      exact hl
+
+theorem lookup_append_not_key (v : String) : ∀ (ms rest : Row), v ∉ ms.map (·.1) →
+    List.lookup v (ms ++ rest) = List.lookup v rest := by
+  intro ms
+  induction ms with
+  | nil => intro rest _; rfl
+  | cons a l ih =>
+    intro rest h
+    simp only [List.map_cons, List.mem_cons, not_or] at h
+    have : (v == a.1) = false := by simpa using h.1
+    obtain ⟨k, w⟩ := a
+    simp only [List.cons_append, List.lookup_cons, this]
+    exact ih rest h.2
+
+/-- the viral value carried by an output row `r.proj ids ++ (ms ++ vs)`. -/
+theorem get_viral_of_row (r : Row) (ids : List String) (ms vs : Row) (v : String) (val : Value)
+    (hid : v ∉ ids) (hms : v ∉ ms.map (·.1)) (hl : vs.lookup v = some val) :
+    Row.get (r.proj ids ++ (ms ++ vs)) v = val := by
+  rw [get_proj_append_not_mem r ids (ms ++ vs) v hid]
+  unfold Row.get
+  rw [lookup_append_not_key v ms vs hms, hl]
+  rfl
+
+theorem viralOf_names_nodup (s : VSpec) (d : DS) (hn : s.names.Nodup) : ((viralOf s d).map (·.1)).Nodup :=
+  (List.filter_sublist.map _).nodup hn
+
+/-- **row-preserving operators**: every result datapoint comes from the operand datapoint with the same identifiers,
+and its viral value is the rule executed dataset-wide (`wide`: the datapoint's own value mapped by an enumerated
+rule; the aggregate of the WHOLE viral column for an aggregate rule). -/
+theorem vMapm_viral (s : VSpec) (body : SExpr) (out : Option String) (x res : DS)
+    (h : vMapm s body out x = .ok res) (hn : s.names.Nodup) (p : String × Rule) (hp : p ∈ viralOf s x)
+    (hid : p.1 ∉ x.ids) (hout : p.1 ∉ (plainMeas s x).map (outName (plainMeas s x) out)) :
+    ∀ r' ∈ res.rows, ∃ r ∈ x.rows, r'.key x.ids = r.key x.ids ∧
+      wide p.2 (column x p.1) (r.get p.1) = .ok (r'.get p.1) := by
+  unfold vMapm at h
+  obtain ⟨rows, hr, h⟩ := (bindOk _ _ _).1 h
+  simp only [pure, Except.pure, Except.ok.injEq] at h
+  subst h
+  intro r' hr'
+  obtain ⟨r, hrm, hf⟩ := (mapRows_mem _ _ _ hr r').1 hr'
+  refine ⟨r, hrm, vMapmRow_key s x body out r r' hf, ?_⟩
+  unfold vMapmRow at hf
+  obtain ⟨ms, hms, hf⟩ := (bindOk _ _ _).1 hf
+  obtain ⟨vs, hvs, hf⟩ := (bindOk _ _ _).1 hf
+  simp only [pure, Except.pure, Except.ok.injEq, Option.some.injEq] at hf
+  subst hf
+  unfold wideVals at hvs
+  obtain ⟨val, hval, hl⟩ := mapM_named_lookup (fun p => wide p.2 (column x p.1) (r.get p.1)) (·.1) _ vs hvs
+    (viralOf_names_nodup s x hn) p hp
+  have hk : ms.map (·.1) = (plainMeas s x).map (outName (plainMeas s x) out) :=
+    mapM_named_keys (fun m => evalS r (r.get m) .null body) (outName (plainMeas s x) out) _ ms hms
+  rw [get_viral_of_row r x.ids ms vs p.1 val hid (hk ▸ hout) hl]
+  exact hval
+
+theorem partner_some (small : DS) (rb rs : Row) (h : partner small rb = some rs) :
+    rs ∈ small.rows ∧ rs.key small.ids = rb.key small.ids := by
+  unfold partner at h
+  exact ⟨List.mem_of_find?_eq_some h, by simpa using List.find?_some h⟩
+
+/-- **dataset ∘ dataset operators**: every result datapoint pairs a datapoint `l` of the left operand with a datapoint
+`r` of the right operand that agree on the identifiers of the operand with fewer identifiers, and its viral value is
+`pairVal`: the rule applied to the two values (`pair`) when both operands carry the attribute, else the one value. -/
+theorem vZip_viral (s : VSpec) (body : SExpr) (out : Option String) (x y res : DS)
+    (h : vZip s body out x y = .ok res) (hn : s.names.Nodup) (p : String × Rule) (hp : p ∈ eitherViral s x y)
+    (hid : p.1 ∉ res.ids)
+    (hout : p.1 ∉ ((plainMeas s x).filter (plainMeas s y).contains).map
+                     (outName ((plainMeas s x).filter (plainMeas s y).contains) out)) :
+    ∀ r' ∈ res.rows, ∃ l ∈ x.rows, ∃ r ∈ y.rows,
+      (l.key y.ids = r.key y.ids ∨ l.key x.ids = r.key x.ids) ∧ pairVal x y l r p = .ok (r'.get p.1) := by
+  have hnn : ((eitherViral s x y).map (·.1)).Nodup := (List.filter_sublist.map _).nodup hn
+  unfold vZip at h
+  split at h
+  · obtain ⟨rows, hr, h⟩ := (bindOk _ _ _).1 h
+    simp only [pure, Except.pure, Except.ok.injEq] at h
+    subst h
+    intro r' hr'
+    obtain ⟨rb, hrm, hf⟩ := (mapRows_mem _ _ _ hr r').1 hr'
+    unfold vZipRow at hf
+    simp only [if_true] at hf
+    cases hpa : partner y rb with
+    | none => simp [hpa] at hf
+    | some rs =>
+      simp only [hpa] at hf
+      obtain ⟨vals, hvals, hf⟩ := (bindOk _ _ _).1 hf
+      obtain ⟨vs, hvs, hf⟩ := (bindOk _ _ _).1 hf
+      simp only [pure, Except.pure, Except.ok.injEq, Option.some.injEq] at hf
+      subst hf
+      obtain ⟨hrs, hks⟩ := partner_some y rb rs hpa
+      obtain ⟨val, hval, hl⟩ := mapM_named_lookup (pairVal x y rb rs) (·.1) _ vs hvs hnn p hp
+      have hk : vals.map (·.1) = _ := mapM_named_keys (fun m => evalS [] (rb.get m) (rs.get m) body) _ _ vals hvals
+      refine ⟨rb, hrm, rs, hrs, Or.inl hks.symm, ?_⟩
+      rw [get_viral_of_row rb x.ids vals vs p.1 val hid (hk ▸ hout) hl]
+      exact hval
+  · split at h
+    · obtain ⟨rows, hr, h⟩ := (bindOk _ _ _).1 h
+      simp only [pure, Except.pure, Except.ok.injEq] at h
+      subst h
+      intro r' hr'
+      obtain ⟨rb, hrm, hf⟩ := (mapRows_mem _ _ _ hr r').1 hr'
+      unfold vZipRow at hf
+      simp only [Bool.false_eq_true, if_false] at hf
+      cases hpa : partner x rb with
+      | none => simp [hpa] at hf
+      | some rs =>
+        simp only [hpa] at hf
+        obtain ⟨vals, hvals, hf⟩ := (bindOk _ _ _).1 hf
+        obtain ⟨vs, hvs, hf⟩ := (bindOk _ _ _).1 hf
+        simp only [pure, Except.pure, Except.ok.injEq, Option.some.injEq] at hf
+        subst hf
+        obtain ⟨hrs, hks⟩ := partner_some x rb rs hpa
+        obtain ⟨val, hval, hl⟩ := mapM_named_lookup (pairVal x y rs rb) (·.1) _ vs hvs hnn p hp
+        have hk : vals.map (·.1) = _ := mapM_named_keys (fun m => evalS [] (rs.get m) (rb.get m) body) _ _ vals hvals
+        refine ⟨rs, hrs, rb, hrm, Or.inr hks, ?_⟩
+        rw [get_viral_of_row rb y.ids vals vs p.1 val hid (hk ▸ hout) hl]
+        exact hval
+    · cases h
+
+/-- **aggregation**: the viral value of every group is the rule applied to the viral values of the datapoints of
+the group (`group`: the left fold of an enumerated rule in list order / the native aggregate). -/
+theorem vAggr_viral (s : VSpec) (spec : AggSpec) (x res : DS) (h : vAggr s spec x = .ok res) (hn : s.names.Nodup)
+    (p : String × Rule) (hp : p ∈ viralOf s x) (hout : ∀ base, aggr spec { x with meas := plainMeas s x } = .ok base → p.1 ∉ base.comps) :
+    ∀ r' ∈ res.rows,
+      group p.2 ((members res.ids x.rows (r'.key res.ids)).map (·.get p.1)) = .ok (r'.get p.1) := by
+  unfold vAggr at h
+  split at h
+  · cases h
+  · obtain ⟨base, hb, h⟩ := (bindOk _ _ _).1 h
+    obtain ⟨rows, hr, h⟩ := (bindOk _ _ _).1 h
+    simp only [pure, Except.pure, Except.ok.injEq] at h
+    subst h
+    intro r' hr'
+    obtain ⟨kr, _, hf⟩ := (mapRows_mem _ _ _ hr r').1 hr'
+    have hkey := vAggrRow_key _ base.ids base.comps x.rows kr r' (fun i hi => List.mem_append_left _ hi) hf
+    unfold vAggrRow at hf
+    obtain ⟨g, hg, hf⟩ := (bindOk _ _ _).1 hf
+    simp only [pure, Except.pure, Except.ok.injEq, Option.some.injEq] at hf
+    subst hf
+    unfold groupVals at hg
+    obtain ⟨val, hval, hl⟩ := mapM_named_lookup
+      (fun p => group p.2 ((members base.ids x.rows (kr.key base.ids)).map (·.get p.1))) (·.1) _ g hg
+      (viralOf_names_nodup s x hn) p hp
+    show group p.2 ((members base.ids x.rows (Row.key (kr.proj base.comps ++ g) base.ids)).map (·.get p.1)) = _
+    rw [hkey, get_proj_append_not_mem kr base.comps g p.1 (hout base hb)]
+    unfold Row.get
+    rw [hl]
+    exact hval
 
 end VtlModel.Sem
